@@ -6,10 +6,13 @@ and — on top of it — C02, C03).
 One fuel-indexed big-step interpreter over the annotated AST of `Model/Ast.lean`, defined for any
 number type `[NumOps N]` and parameterised by `cfg : RunCfg`:
 
-* `cfg.lookup` — `dynamic`: what the code does (`lookup_local_env`: search the WHOLE scope stack,
-  innermost scope first, most recently pushed slot first, for the `LocalId`; by name when the node
-  carries no binding); `lexical`: the same search restricted to the scopes on the ghost static
-  chain of the running code (the reference semantics of C04).
+* `cfg.lookup` — `dynamic`: what the code does since the fix of D-04 (`local_scope_index` +
+  `lookup_local_env`: a bound reference is looked up ONLY in the most recent scope instance whose
+  tag is the declaring scope of the `LocalId`, most recently pushed slot first; by name over the
+  whole stack when the node carries no binding); `dynamicWholeStack`: the code before that fix
+  (search the WHOLE scope stack, innermost scope first, for the `LocalId`), kept so that the
+  historical witness stays replayable; `lexical`: the whole-stack search restricted to the scopes
+  on the ghost static chain of the running code (the reference semantics of C04).
 * `cfg.plan` — the `OptimizationPlan`: a statement whose `StmtId` is in `plan.stmts` is skipped
   exactly where `exec_block_with_flow` skips it; a function whose `FunctionId` is in `plan.fns` is
   not hoisted (`register_function`).
@@ -40,7 +43,7 @@ open NaijaVerif
 /-! ### Configuration -/
 
 inductive LookupMode where
-  | dynamic | lexical
+  | dynamic | lexical | dynamicWholeStack
 deriving DecidableEq, Repr
 
 /-- `OptimizationPlan`: removable statement ids and removable function ids. -/
@@ -90,12 +93,19 @@ inductive ScopeKind where
   | params (fn : Option Nat)
 deriving DecidableEq, Repr
 
-/-- One entry of `env` together with the entry of `function_scopes` at the same depth. -/
+/-- One entry of `env` together with the entries of `function_scopes` and `scope_ids` at the same
+depth.  `decls` stands for the tag `scope_ids[i] : Option<ScopeId>`: the code compares the tag with
+`facts.locals[l].declaring_scope`; the model records WHICH `LocalId`s have the instantiated scope as
+their declaring scope — for a block the locals of its own `make` statements (`declIds`), for a
+parameter scope the parameters' ids, none for the root scope — so that `tag = declaring_scope(l)`
+is `l ∈ decls`.  (The resolver gives every local exactly one declaring scope: the block whose
+statement list contains its `make`s, or the parameter scope of its function.) -/
 structure Scope (N : Type) where
   uid : Nat
   kind : ScopeKind
   slots : List (Slot N)
   fns : List FnEntry
+  decls : List Nat := []
 
 structure State (N : Type) where
   env : List (Scope N)
@@ -141,9 +151,9 @@ def Res.ofFault {α : Type} (cfg : RunCfg) (flt : Fault) (span : Span) (st : Sta
 
 /-! ### Scopes and lookup -/
 
-/-- Whether a scope takes part in a search. -/
+/-- Whether a scope takes part in a whole-stack search. -/
 def visible (cfg : RunCfg) (chain : List Nat) (s : Scope N) : Bool :=
-  cfg.lookup == .dynamic || chain.contains s.uid
+  cfg.lookup != .lexical || chain.contains s.uid
 
 /-- The slot a reference denotes: by `LocalId` when the node is bound, else by name. -/
 def Slot.matches (bind : Option Nat) (name : Bytes) (sl : Slot N) : Bool :=
@@ -171,9 +181,20 @@ def getAt (env : List (Scope N)) (pos : Nat × Nat) : Option (Value N) :=
 def updateAt (env : List (Scope N)) (pos : Nat × Nat) (f : Value N → Value N) : List (Scope N) :=
   env.modify pos.1 (fun s => { s with slots := s.slots.modify pos.2 (fun sl => { sl with val := f sl.val }) })
 
+/-- `local_scope_index` followed by the slot search of `lookup_local_env` / `lookup_local_mut` /
+`assign_bound_local`: the MOST RECENT scope instance whose tag is the declaring scope of `l`, and in
+it the most recently pushed slot with that id.  No other scope is searched: a miss there is a miss. -/
+def findOwned (l : Nat) : List (Scope N) → Option (Nat × Nat)
+  | [] => none
+  | s :: r =>
+    if s.decls.contains l then (s.slots.findIdx? (fun sl => sl.id == some l)).map (fun j => (0, j))
+    else (findOwned l r).map (fun q => (q.1 + 1, q.2))
+
 /-- Position of the slot a reference denotes in the current state. -/
 def slotOf (cfg : RunCfg) (st : State N) (bind : Option Nat) (name : Bytes) : Option (Nat × Nat) :=
-  findPos (visible cfg st.chain) (Slot.matches bind name) st.env
+  match cfg.lookup, bind with
+  | .dynamic, some l => findOwned l st.env
+  | _, _ => findPos (visible cfg st.chain) (Slot.matches bind name) st.env
 
 /-- `lookup_local` / `lookup_var` (the clone is the value itself). -/
 def lookupVal (cfg : RunCfg) (st : State N) (bind : Option Nat) (name : Bytes) : Option (Value N) :=
@@ -211,10 +232,18 @@ def lookupFn (cfg : RunCfg) (st : State N) (fnAnn : Option Nat) (name : Bytes) :
   | none => findFn (visible cfg st.chain) (fun fd => fd.name == name) st.env
 
 /-- `push_scope_with_capacity`: a fresh scope instance; `chain` is the static chain the new scope
-extends (the current one for a block, the callee's for a parameter scope). -/
-def pushScope (st : State N) (kind : ScopeKind) (chain : List Nat) (slots : List (Slot N)) : State N :=
-  { st with env := { uid := st.next, kind := kind, slots := slots, fns := [] } :: st.env,
+extends (the current one for a block, the callee's for a parameter scope), `decls` its tag. -/
+def pushScope (st : State N) (kind : ScopeKind) (chain : List Nat) (slots : List (Slot N))
+    (decls : List Nat) : State N :=
+  { st with env := { uid := st.next, kind := kind, slots := slots, fns := [], decls := decls } :: st.env,
             chain := st.next :: chain, next := st.next + 1 }
+
+/-- The locals whose declaring scope is the block with these statements: the bindings of its own
+`make` statements (`facts.scope_of_block(block)` is `declaring_scope` of exactly these). -/
+def declIds : List Stmt → List Nat
+  | [] => []
+  | .assign _ _ _ (some l) _ _ :: rest => l :: declIds rest
+  | _ :: rest => declIds rest
 
 /-- `pop_scope`, restoring the static chain of the code that continues. -/
 def popScope (st : State N) (chain : List Nat) : State N :=
@@ -491,7 +520,8 @@ def evalExpr (cfg : RunCfg) : Nat → Expr → State N → Res N (Value N)
               | none => trap cfg .paramRange sp st1
               | some ids =>
                 (execBlock cfg f fd.body
-                    (pushScope st1 (.params fd.id) fd.chain (paramSlots fd.params ids vs))).bind fun flow st3 =>
+                    (pushScope st1 (.params fd.id) fd.chain (paramSlots fd.params ids vs)
+                      (ids.filterMap id))).bind fun flow st3 =>
                   let st4 := popScope st3 st1.chain
                   match flow with
                   | .cont => .ok .null st4
@@ -628,7 +658,7 @@ def execStmts (cfg : RunCfg) : Nat → List Stmt → State N → Res N (Flow N)
 def execBlock (cfg : RunCfg) : Nat → Block → State N → Res N (Flow N)
   | 0, _, _ => .fuel
   | f + 1, b, st =>
-    (execStmts cfg f b.stmts (hoist cfg b.stmts (pushScope st (.block b.span) st.chain []))).bind
+    (execStmts cfg f b.stmts (hoist cfg b.stmts (pushScope st (.block b.span) st.chain [] (declIds b.stmts)))).bind
       fun flow st2 => .ok flow (popScope st2 st.chain)
 
 /-- `Stmt::Loop`. -/
@@ -649,7 +679,7 @@ end
 
 /-- The state `run_inner` starts from: one empty root scope (`push_scope_with_capacity(0, arena)`). -/
 def State.init (cfg : RunCfg) : State N :=
-  { env := [{ uid := 0, kind := .root, slots := [], fns := [] }], out := [], chain := [0], next := 1,
+  { env := [{ uid := 0, kind := .root, slots := [], fns := [], decls := [] }], out := [], chain := [0], next := 1,
     input := cfg.input }
 
 /-- `run_inner` (`Runtime::run_with_analysis`): the flow the root block ends with is ignored. -/
